@@ -228,4 +228,267 @@ macro_rules! k04_walk_npn {
     };
 }
 
+// ---------------------------------------------------------------------------------------------
+// L0 dispatch lemma: the public entry points hand the walk (`*_ind`) and the decoder (`*_res`) the SAME
+// sequences, and those sequences are closed, in range and visit every group element -- checked on what
+// the dispatcher really passes (recording stubs replace `*_ind` / `*_res`; everything here is concrete
+// except the table, which the dispatch does not look at).  For swap sequences of n >= 7 (5040 / 40320
+// entries) the recorded sequence is compared with `generate_swaps(n, true)`, whose coverage is lemma L2.
+// ---------------------------------------------------------------------------------------------
+
+pub const REC_CAP: usize = 40400;
+pub static mut REC_SW: [u8; REC_CAP] = [0; REC_CAP];
+pub static mut REC_SW_LEN: usize = 0;
+pub static mut REC_FL: [u8; 300] = [0; 300];
+pub static mut REC_FL_LEN: usize = 0;
+pub static mut REC_IND_CALLS: usize = 0;
+pub static mut REC_RES_CALLS: usize = 0;
+pub static mut REC_RES_SAME: bool = false;
+
+unsafe fn rec_store_sw(s: &[u8]) {
+    REC_SW_LEN = s.len();
+    let mut i = 0;
+    while i < s.len() {
+        REC_SW[i] = s[i];
+        i += 1;
+    }
+}
+
+unsafe fn rec_store_fl(s: &[u8]) {
+    REC_FL_LEN = s.len();
+    let mut i = 0;
+    while i < s.len() {
+        REC_FL[i] = s[i];
+        i += 1;
+    }
+}
+
+unsafe fn rec_same_sw(s: &[u8]) -> bool {
+    if s.len() != REC_SW_LEN {
+        return false;
+    }
+    let mut i = 0;
+    while i < s.len() {
+        if REC_SW[i] != s[i] {
+            return false;
+        }
+        i += 1;
+    }
+    true
+}
+
+unsafe fn rec_same_fl(s: &[u8]) -> bool {
+    if s.len() != REC_FL_LEN {
+        return false;
+    }
+    let mut i = 0;
+    while i < s.len() {
+        if REC_FL[i] != s[i] {
+            return false;
+        }
+        i += 1;
+    }
+    true
+}
+
+pub fn rec_p_ind(_n: usize, table: &mut [u64], best: &mut [u64], all_swaps: &[u8]) -> usize {
+    best.clone_from_slice(table);
+    unsafe {
+        rec_store_sw(all_swaps);
+        REC_IND_CALLS += 1;
+    }
+    0
+}
+
+pub fn rec_p_res(_n: usize, res_perm: &mut [u8], all_swaps: &[u8], _best_ind: usize) {
+    let mut i = 0;
+    while i < res_perm.len() {
+        res_perm[i] = i as u8;
+        i += 1;
+    }
+    unsafe {
+        REC_RES_SAME = rec_same_sw(all_swaps);
+        REC_RES_CALLS += 1;
+    }
+}
+
+pub fn rec_n_ind(_n: usize, table: &mut [u64], best: &mut [u64], all_flips: &[u8]) -> usize {
+    best.clone_from_slice(table);
+    unsafe {
+        rec_store_fl(all_flips);
+        REC_IND_CALLS += 1;
+    }
+    0
+}
+
+pub fn rec_n_res(_n: usize, all_flips: &[u8], _best_ind: usize) -> u32 {
+    unsafe {
+        REC_RES_SAME = rec_same_fl(all_flips);
+        REC_RES_CALLS += 1;
+    }
+    0
+}
+
+pub fn rec_npn_ind(_n: usize, table: &mut [u64], best: &mut [u64], all_swaps: &[u8], all_flips: &[u8]) -> usize {
+    best.clone_from_slice(table);
+    unsafe {
+        rec_store_sw(all_swaps);
+        rec_store_fl(all_flips);
+        REC_IND_CALLS += 1;
+    }
+    0
+}
+
+pub fn rec_npn_res(_n: usize, res_perm: &mut [u8], all_swaps: &[u8], all_flips: &[u8], _best_ind: usize) -> u32 {
+    let mut i = 0;
+    while i < res_perm.len() {
+        res_perm[i] = i as u8;
+        i += 1;
+    }
+    unsafe {
+        REC_RES_SAME = rec_same_sw(all_swaps) && rec_same_fl(all_flips);
+        REC_RES_CALLS += 1;
+    }
+    0
+}
+
+/// The recorded flip sequence is in range, closed, and its prefix products 1..L hit every polarity of n inputs.
+pub fn check_flips(n: usize) -> bool {
+    let len = unsafe { REC_FL_LEN };
+    if len != (1usize << n) {
+        return false;
+    }
+    let mut seen = [false; 256];
+    let mut cur = 0usize;
+    let mut k = 0;
+    while k < len {
+        let f = unsafe { REC_FL[k] } as usize;
+        if f >= n {
+            return false;
+        }
+        cur ^= 1 << f;
+        seen[cur] = true;
+        k += 1;
+    }
+    if cur != 0 {
+        return false;
+    }
+    let mut x = 0;
+    while x < (1usize << n) {
+        if !seen[x] {
+            return false;
+        }
+        x += 1;
+    }
+    true
+}
+
+/// The recorded swap sequence (n <= 6) is in range, closed, and its prefix products 0..L hit every permutation.
+pub fn check_swaps_small(n: usize) -> bool {
+    let len = unsafe { REC_SW_LEN };
+    let mut fact = [1usize; 8];
+    let mut i = 1;
+    while i < 8 {
+        fact[i] = fact[i - 1] * i;
+        i += 1;
+    }
+    if len != fact[n] {
+        return false;
+    }
+    let mut seen = [false; 720];
+    let mut p = [0u8, 1, 2, 3, 4, 5];
+    seen[0] = true;
+    let mut k = 0;
+    while k < len {
+        let s = unsafe { REC_SW[k] } as usize;
+        if s + 1 >= n {
+            return false;
+        }
+        p.swap(s, s + 1);
+        // Lehmer rank of p[0..n]
+        let mut rank = 0usize;
+        let mut a = 0;
+        while a < n {
+            let mut c = 0;
+            let mut b = a + 1;
+            while b < n {
+                if p[b] < p[a] {
+                    c += 1;
+                }
+                b += 1;
+            }
+            rank += c * fact[n - 1 - a];
+            a += 1;
+        }
+        seen[rank] = true;
+        k += 1;
+    }
+    let mut a = 0;
+    while a < n {
+        if p[a] as usize != a {
+            return false;
+        }
+        a += 1;
+    }
+    let mut r = 0;
+    while r < fact[n] {
+        if !seen[r] {
+            return false;
+        }
+        r += 1;
+    }
+    true
+}
+
+/// The recorded swap sequence (n >= 7) is exactly generate_swaps(n, true) (whose coverage is lemma L2).
+pub fn check_swaps_generated(n: usize) -> bool {
+    let g = crate::canonization::generate_swaps(n, true);
+    let r = unsafe { rec_same_sw(&g) };
+    std::mem::forget(g);
+    r
+}
+
+macro_rules! k04_dispatch {
+    ($name:ident, $fam:ident, $grp:literal, $u:literal) => {
+        #[kani::proof]
+        #[kani::unwind($u)]
+        #[kani::stub(crate::canonization::p_canonization_ind, crate::verif_k04::rec_p_ind)]
+        #[kani::stub(crate::canonization::p_canonization_res, crate::verif_k04::rec_p_res)]
+        #[kani::stub(crate::canonization::n_canonization_ind, crate::verif_k04::rec_n_ind)]
+        #[kani::stub(crate::canonization::n_canonization_res, crate::verif_k04::rec_n_res)]
+        #[kani::stub(crate::canonization::npn_canonization_ind, crate::verif_k04::rec_npn_ind)]
+        #[kani::stub(crate::canonization::npn_canonization_res, crate::verif_k04::rec_npn_res)]
+        pub fn $name() {
+            use crate::verif_common::$fam as F;
+            let f = F::zero();
+            if $grp == 0 {
+                let r = f.p_canonization();
+                std::mem::forget(r);
+            } else if $grp == 1 {
+                let r = f.n_canonization();
+                std::mem::forget(r);
+            } else {
+                let r = f.npn_canonization();
+                std::mem::forget(r);
+            }
+            unsafe {
+                assert!(REC_IND_CALLS == 1 && REC_RES_CALLS == 1);
+                assert!(REC_RES_SAME);
+            }
+            if $grp != 1 {
+                if F::N <= 6 {
+                    assert!(check_swaps_small(F::N));
+                } else {
+                    assert!(check_swaps_generated(F::N));
+                }
+            }
+            if $grp != 0 {
+                assert!(check_flips(F::N));
+            }
+            kani::cover!(true, "reached");
+            std::mem::forget(f);
+        }
+    };
+}
+
 // ---- instantiations (generated by /verif/lib/registry.py) ----
